@@ -105,7 +105,27 @@ func excludedBelow(w *witness, root, d string) string {
 	return ""
 }
 
+// belowPathBlacklisted: the root is, or lies below, a directory named by a multi-component (path-anchored) blacklist entry.
+// Such an expansion is specified: everything under a blacklisted directory is excluded, so it yields nothing.
+// (Roots below a directory that is blacklisted only by its base name stay unenumerated: unspecified.)
+func belowPathBlacklisted(w *witness, r string) bool {
+	for _, e := range w.Blacklist {
+		if strings.Contains(e, "/") && (r == e || strings.HasPrefix(r, e+"/")) {
+			return true
+		}
+	}
+	return false
+}
+
 func eligibleRoot(w *witness, r string) bool {
+	if belowPathBlacklisted(w, r) {
+		for a := r; a != ""; a = parentOf(a) {
+			if x := excludedDir(w, a); x == "plz-out" || x == "hidden-dir" {
+				return false
+			}
+		}
+		return true
+	}
 	for a := r; a != ""; a = parentOf(a) {
 		switch excludedDir(w, a) {
 		case "plz-out", "hidden-dir", "blacklisted":
@@ -117,6 +137,9 @@ func eligibleRoot(w *witness, r string) bool {
 
 func expected(w *witness) []string {
 	out := []string{}
+	if belowPathBlacklisted(w, w.Root) {
+		return out
+	}
 	for _, d := range w.Builds {
 		if within(w.Root, d) && excludedBelow(w, w.Root, d) == "" {
 			out = append(out, filepath.Join(d, "BUILD"))
@@ -371,6 +394,14 @@ func worker(idx, n int, quick bool, deadline time.Time) {
 		maxDirs, depth = 4, 3
 	}
 	all := trees(maxDirs, depth)
+	if quick {
+		// the quick tier adds the depth-3 chains below the path-anchored blacklist entry a/out (an expansion rooted strictly
+		// below a blacklisted path needs three levels)
+		for _, leaf := range []string{"a/out/z", "a/out/a", "a/output/z"} {
+			parent := leaf[:strings.LastIndex(leaf, "/")]
+			all = append(all, []string{"a", parent, leaf})
+		}
+	}
 	res := workerResult{}
 	mins := map[string]*viol{}
 	for ti := idx; ti < len(all); ti += n {
